@@ -361,6 +361,35 @@ fn run_shake(c: &Case) -> Outcome {
     acc.done()
 }
 
+/// digest of a plain update-only history (used by the C18 transcript): every chunk is fed with update(), then finalized
+pub fn digest_of_history(func: u8, out_len: u8, key: &[u8], ops: &[HOp]) -> Vec<u8> {
+    let func = func % 15;
+    let out_len = (out_len as usize).clamp(1, 32);
+    let key = &key[..key.len().min(32)];
+    if func == 10 || func == 11 {
+        let mut o = vec![0u8; 200];
+        if func == 10 {
+            let mut s = crrl::sha3::SHAKE128::new();
+            for op in ops { if let HOp::Update(_, d) = op { s.inject(d); } }
+            s.flip_extract(&mut o[..77]);
+            s.extract(&mut o[77..]);
+        } else {
+            let mut s = crrl::sha3::SHAKE256::new();
+            for op in ops { if let HOp::Update(_, d) = op { s.inject(d); } }
+            s.flip_extract(&mut o[..77]);
+            s.extract(&mut o[77..]);
+        }
+        return o;
+    }
+    let mut inst = new_inst(func, out_len, key);
+    for op in ops {
+        if let HOp::Update(_, d) = op {
+            inst.update(d);
+        }
+    }
+    inst.finalize(1, 0).0
+}
+
 pub struct C17 {
     classes: Vec<(ClassSpec, u8)>,
 }
